@@ -48,6 +48,7 @@ package native
 //@ axiom tcat_empty: forall a text :: tcat(a, txt("")) == a && tcat(txt(""), a) == a
 //@ axiom txt_split: forall a bytes, o int, n1 int, o2 int, n2 int :: { tcat(arrtxt(a, o, n1), arrtxt(a, o2, n2)) } (o2 == o + n1 && n1 >= 0 && n2 >= 0) ==> tcat(arrtxt(a, o, n1), arrtxt(a, o2, n2)) == arrtxt(a, o, n1 + n2)
 //@ axiom html_empty: htmlSpec(txt("")) == txt("")
+//@ axiom corr_empty: forall r text :: corrSpec(txt(""), r) == txt("")
 //@ axiom quote_empty: forall f uint64 :: quoteSpec(txt(""), f) == txt("")
 
 // html_escape(sp, nb, dp, &dn): reads only [sp, sp+nb), writes only [dp, dp+dn0) (C05, C06);
@@ -98,6 +99,24 @@ package native
 //@   modifies rawmem(out)
 //@   ensures 0 < result && result <= 32 && rawtxt(out, result) == f32Spec(val)
 //@   ensures forall j int :: (ptrlo(out) <= j && j < ptrindex(out)) ==> rawat(out, j) == old(rawat(out, j))
+
+// validate_utf8(s, p, m): scans *s from *p, records the positions of invalid bytes in
+// m.Vt[0..m.Sp) (ascending), stops at the end (returns 0) or when the table is full
+// (returns non-zero with *p at the first invalid byte that was not recorded).  corrSpec is
+// the abstract "replace every invalid byte by r"; fixSeg(s, a, b, vt, i, n, r) is the text
+// s[a:b) with the bytes at vt[i..n) replaced by r.  The correction of the unscanned rest
+// composes with the scanned part (restart form, as for the escaping routines).
+//@ pure func corrSpec(s text, r text) text
+//@ pure func fixSeg(s string, a int, b int, vt ints, i int, n int, r text) text = ite(i >= n, subtxt(s, a, b - a), tcat(tcat(subtxt(s, a, vt[i] - a), r), fixSeg(s, vt[i] + 1, b, vt, i + 1, n, r)))
+//@ func ValidateUTF8 assumed "native validate_utf8 (pre-assembled machine code)"
+//@   requires s != nil && p != nil && m != nil && 0 <= *p && *p <= len(*s) && m.Sp == 0
+//@   modifies *p, m.Sp, m.Vt
+//@   ensures old(*p) <= *p && *p <= len(*s) && 0 <= m.Sp && m.Sp <= types.MAX_RECURSE && m.Sp <= *p - old(*p)
+//@   ensures ret == 0 ==> *p == len(*s)
+//@   ensures ret != 0 ==> (m.Sp > 0 && *p < len(*s))
+//@   ensures forall k int :: (0 <= k && k < m.Sp) ==> (old(*p) <= m.Vt[k] && m.Vt[k] < *p)
+//@   ensures forall j int, k int :: (0 <= j && j < k && k < m.Sp) ==> m.Vt[j] < m.Vt[k]
+//@   ensures forall r text :: { corrSpec(subtxt(*s, old(*p), len(*s) - old(*p)), r) } corrSpec(subtxt(*s, old(*p), len(*s) - old(*p)), r) == tcat(fixSeg(*s, old(*p), *p, m.Vt, 0, m.Sp, r), corrSpec(subtxt(*s, *p, len(*s) - *p), r))
 
 // ---- dispatch wiring (C13): each slot of the function-pointer table is filled
 // with the same-named routine of ONE instruction-set package; both variants fill
